@@ -41,19 +41,39 @@ func c11Args(a int) string {
 	return strings.Join(args, ", ")
 }
 
+// c11Name is the name of the macro under test ("m" unless a case sets a name style): 1 a camel-case name with a
+// sibling macro that differs from it only by case defined after it, 2 an upper-case name with such a sibling defined
+// before it, 3 a name with digits and underscores. Macro names are identifiers: they are matched exactly.
+var c11Name = "m"
+
+var c11NameStyles = []string{"m", "renderRow", "M", "m_2x"}
+
+// c11Defs returns the definition of the macro under test with p parameters plus, for the name styles with a sibling,
+// the sibling (which prints something else).
+func c11Defs(style, p int) string {
+	def := c11MacroDef(c11Name, p)
+	switch style {
+	case 1:
+		return def + "{% macro renderrow(q) %}LOWER{% endmacro %}{% macro RENDERROW(q) %}UPPER{% endmacro %}"
+	case 2:
+		return "{% macro m(q) %}LOWER{% endmacro %}" + def
+	}
+	return def
+}
+
 // forms: 0 _self, 1 import alias, 2 from import, 3 from import renamed, 4 from import renamed to a registered function's name
 func c11Call(form int, args string) (prelude, call, tpl string) {
 	switch form {
 	case 0:
-		return "", "_self.m(" + args + ")", "main"
+		return "", "_self." + c11Name + "(" + args + ")", "main"
 	case 1:
-		return "{% import 'mac' as i %}", "i.m(" + args + ")", "mac"
+		return "{% import 'mac' as i %}", "i." + c11Name + "(" + args + ")", "mac"
 	case 2:
-		return "{% from 'mac' import m %}", "m(" + args + ")", "mac"
+		return "{% from 'mac' import " + c11Name + " %}", c11Name + "(" + args + ")", "mac"
 	case 3:
-		return "{% from 'mac' import m as g %}", "g(" + args + ")", "mac"
+		return "{% from 'mac' import " + c11Name + " as g %}", "g(" + args + ")", "mac"
 	default: // renamed to the name of a registered function: the imported macro is what the call refers to
-		return "{% from 'mac' import m as fn9 %}", "fn9(" + args + ")", "mac"
+		return "{% from 'mac' import " + c11Name + " as fn9 %}", "fn9(" + args + ")", "mac"
 	}
 }
 
@@ -119,13 +139,19 @@ func c11Run(c core.Case) core.Result {
 	switch c.Fam {
 	case "call":
 		p, a, form, use := c.N[0], c.N[1], c.N[2], c.N[3]
+		style := 0
+		if len(c.N) > 4 {
+			style = c.N[4]
+		}
+		c11Name = c11NameStyles[style]
+		defer func() { c11Name = "m" }()
 		prelude, call, tpl := c11Call(form, c11Args(a))
 		r := c11MacroExpect(p, a, tpl)
 		src, want := c11Use(use, call, r)
-		tpls := map[string]string{"mac": "text in the macro file " + c11MacroDef("m", p) + c11MacroDef("other", 1)}
+		tpls := map[string]string{"mac": "text in the macro file " + c11Defs(style, p) + c11MacroDef("other", 1)}
 		main := "{% macro w(a) %}<{{ a }}>{% endmacro %}"
 		if form == 0 {
-			main += c11MacroDef("m", p)
+			main += c11Defs(style, p)
 		}
 		tpls["main"] = main + prelude + "A" + src + "Z"
 		want = "A" + want + "Z"
@@ -412,6 +438,12 @@ func c11Levels(tier string) []core.Level {
 					for form := 0; form < c11Forms; form++ {
 						for use := 0; use < c11Uses; use++ {
 							emit(core.Case{Fam: "call", N: []int{p, a, form, use}})
+							if p <= 4 && a <= 6 && (use <= 1 || use == 8) {
+								// macro names in other styles: camel case / upper case next to a macro that differs only by case; digits and underscores
+								for style := 1; style < len(c11NameStyles); style++ {
+									emit(core.Case{Fam: "call", N: []int{p, a, form, use, style}})
+								}
+							}
 						}
 					}
 				}
